@@ -14,7 +14,8 @@
  *        -> `HEX nul=K maxw=I` | `NONUL HEX maxw=I` | `EINVAL` (control API refused MAXLEN)
  *   static MAXLEN OUTCAP FORMAT name=H pid=N host=H|fail      -> same
  *   fset MAXLEN FORMAT name=H pid=N host=H|fail               -> `HEX` (the stored target format)
- *   cut CAP SRC CUTOFF RALIGN BUFLEN                           -> `RET HEX nul=K maxw=I`
+ *   cut CAP SRC CUTOFF RALIGN BUFLEN                           -> `RET HEX nul=K maxw=I` | `RET NONUL HEX maxw=I`
+ *        (BUFLEN >= 1; `EDOM` for BUFLEN 0, which no caller of the static helper can pass)
  *   log mc=N|off mf=N|off ms=N|off ell=B ext=B old=B ffmt=H pf=H sh=SHAPE a=.. prio=N line=N tags=N
  *        fn=H file=H name=H pid=N host=H exp=H
  *        -> `c=HEX|none f=HEX|none s=HEX|none o=HEX|none`
@@ -310,6 +311,13 @@ static void op_cut(char **tok, int nt)
 	size_t buflen = (size_t)strtoull(tok[5], NULL, 10);
 	char *out[2];
 	int pass, ret = 0;
+	if (buflen == 0) {
+		/* outside the domain of the static helper: both callers leave their loop at
+		 * idx >= max_line_length - 1, so buf_len >= 2 (Props.C13.caller_buf_len_ge_two) */
+		printf("EDOM\n");
+		free(src);
+		return;
+	}
 	for (pass = 0; pass < 2; pass++) {
 		out[pass] = gbuf_alloc(cap);
 		memset(out[pass], pass ? 0x55 : 0xAA, cap);
